@@ -30,7 +30,7 @@ add("C17", "model-based (stateful) property testing: generated operation histori
 
 add("C10", "property-based differential testing against math/big through the real compiler and executables (rapid)",
     "Generated batches of integer literals (12 types x boundary-heavy values up to 300 bits x decimal/hex/octal/binary spellings with separators, case variants and the three negation forms x 5 positions) are type-checked and the set of rejected lines must equal the out-of-range set exactly; the accepted lines are compiled natively, run, and must print their exact value. Exploration.",
-    "Trusts math/big and io::Println's decimal printing of the value. Decimal literals with leading zeros are not generated (base undocumented).",
+    "Trusts math/big and io::Println's decimal printing of the value.",
     "DESIGN.md §4 C10")
 add("C15", "exhaustive enumeration of small import graphs + rapid graph/schedule generation; oracle = reachability/cycle analysis and computed value",
     "Every digraph on <=3 modules and generated graphs up to 40 modules (dense random, layered DAGs with back edges, wide fan-outs, chains with chords; plain/aliased/doubly-aliased imports) are compiled under generated schedules (GOMAXPROCS x hook delays at module granularity). Cyclic => circular-import error, no executable, no hang; acyclic => compiles, every reachable module processed once per phase, executable prints the value computed from the graph. Exploration; exhaustive for n<=3.",
